@@ -221,6 +221,18 @@ def run(ck):
         all(ge.dominates(ws[0], r) for r in tr) and \
         all(r.id not in ge.reachable_from(ws[0]) for r in fa) and \
         must_pass(ge, ws[0], tr, [ge.exit]) is None
+    if not ok and len(rets) >= 1 and not tr:
+        # flag style: `return <the very test that guards the write>` (true on the storing path,
+        # false on every path that avoids the write)
+        wfacts = {canon_fact(e_, p_) for e_, p_ in ge.guards(ws[0])}
+        flag_rets = [r for r in rets if r.ast.value is not None and canon_fact(r.ast.value, True) in wfacts]
+        other = [r for r in rets if r not in flag_rets]
+        br = [n for n in ge.nodes if n.kind == 'branch' and flag_rets and any(
+            canon_fact(e_, p_) == canon_fact(flag_rets[0].ast.value, True)
+            for e_, p_ in decompose(n.test.ast, n.polarity))]
+        ok = bool(flag_rets) and all(is_const(r.ast.value, False) and r.id not in ge.reachable_from(ws[0])
+                                     for r in other) and bool(br) and \
+            ge.path_avoiding(br[0], [ge.exit], avoid=ws) is None
     ck.ob(R7, f"{eb.fid} :: change indicator", ok,
           "returns True exactly on the path that stored a new value" if ok else
           "the change indicator does not correspond to 'a new value was stored'", eb, eb.node)
@@ -228,10 +240,14 @@ def run(ck):
                             norm(n.ast.value) == 'self._output')
     pname = norm(prev_defs[0].ast.targets[0]) if prev_defs else None
     vname = v.id if isinstance(v, ast.Name) else None
-    ok = bool(fa) and pname and vname and all(
-        ge.has_guard(r, f'{pname} == {vname}', True) or ge.has_guard(r, f'{vname} == {pname}', True)
-        for r in fa) and (ge.has_guard(ws[0], f'{pname} == {vname}', False) or
-                          ge.has_guard(ws[0], f'{vname} == {pname}', False))
+    eq_t = {canon_fact(ast.parse(t_, mode='eval').body, True) for t_ in
+            (f'{pname} == {vname}', f'{vname} == {pname}')} if pname and vname else set()
+    eqT_nodes = [n for n in ge.nodes if n.kind == 'branch' and any(
+        canon_fact(e_, p_) in eq_t for e_, p_ in decompose(n.test.ast, n.polarity))]
+    ok = bool(pname) and bool(vname) and bool(eqT_nodes) and \
+        ge.path_avoiding(ge.entry, [ge.exit], avoid=ws + eqT_nodes) is None and \
+        (ge.has_guard(ws[0], f'{pname} == {vname}', False) or
+         ge.has_guard(ws[0], f'{vname} == {pname}', False))
     ok = ok and all(ge.dominates(p, ws[0]) and p.id not in ge.reachable_from(ws[0]) for p in prev_defs)
     ck.ob(R7, f"{eb.fid} :: skip only for equal values", bool(ok),
           "the no-change exit is taken exactly when old == new (equality, not identity)" if ok else
